@@ -172,10 +172,13 @@ _decades = st.sampled_from([1e-6, 1e-3, 1e-2, 1e3, 1e6])          # MPa -> TPa /
 WIDE_SCALES = st.one_of(_wpow2, _wfscale, _decades)
 
 
-def frame(rows, index=None, rid=None):
+def frame(rows, index=None, rid=None, cycles_dtype=None):
     cols = {"load": np.asarray([r[0] for r in rows], dtype=np.float64),
             "cycles": np.asarray([r[1] for r in rows], dtype=np.float64),
             "fracture": np.asarray([bool(r[2]) for r in rows], dtype=bool)}
+    if cycles_dtype is not None:
+        # how the cycle numbers are stored (a cycle counter, a CSV import or Python ints give integer columns) is not data
+        cols["cycles"] = pd.array([int(r[1]) for r in rows], dtype=cycles_dtype)
     if rid is not None:
         cols["specimen"] = np.asarray(rid, dtype=np.int64)      # an extra column identifying the test, whatever its row label is
     df = pd.DataFrame(cols)
@@ -308,13 +311,13 @@ def ref_loglike(rows, p):
 ANALYSERS = {"Elementary": W.Elementary, "Probit": W.Probit, "MaxLikeInf": W.MaxLikeInf, "MaxLikeFull": W.MaxLikeFull}
 
 
-def analyse(name, rows, index=None, want_estimator=False):
+def analyse(name, rows, index=None, want_estimator=False, cycles_dtype=None):
     """-> ('ok', {param: float}, [warning texts], extra)  or  ('ValueError', message, [], {}).
     ValueError is the documented reaction of FatigueData / the analysers to inadmissible data; nothing else is caught."""
     with warnings.catch_warnings(record=True) as wl:
         warnings.simplefilter("always")
         try:
-            an = ANALYSERS[name](frame(rows, index))
+            an = ANALYSERS[name](frame(rows, index, cycles_dtype=cycles_dtype))
             res = an.analyze()
         except ValueError as e:
             return "ValueError", str(e), [], {}
@@ -508,7 +511,9 @@ def _compare_closed(name, rows, kind, c, perm, ctx, index=None, index2=None):
         if pc is not None and pc < 0.01 and s["n_runouts"] > 0:
             ctx.label("probit_undetermined")
             skip |= {"TS", "SD", "ND"}
-    if name == "Elementary" and math.isfinite(ra["k_1"]) and abs(ra["k_1"]) < 0.05:
+    # Probit returns the Elementary TS when it falls back (fewer than two infinite-zone levels after dropping irrelevant run-outs)
+    elementary_ts = name == "Elementary" or len(structure(relevant(rows))["infinite_levels"]) < 2
+    if elementary_ts and math.isfinite(ra["k_1"]) and abs(ra["k_1"]) < 0.05:
         ctx.label("slope_near_zero")
         skip.add("TS")
     worst = 0.0
@@ -1194,6 +1199,152 @@ subcheck(PROP, "mlfull_history_no_runouts", strategy=_history_cases("no_runouts"
 subcheck(PROP, "history_closed", strategy=_history_cases("free", ["any", "mixed2"], 0), quick=120, thorough=5000,
          doc="Elementary, Probit, MaxLikeInf: B, any A, B again: identical results")(
     _history_run(["Elementary", "Probit", "MaxLikeInf"]))
+
+
+
+# =====================================================================================
+# representation of the cycle numbers: integer storage == float storage
+# =====================================================================================
+@st.composite
+def _int_cycle_cases(draw, tier):
+    ds = draw(_datasets(tier, mode=draw(st.sampled_from(["any"] * 4 + ["wild", "mixed2"]))))
+    # cycle counts as written down in low-cycle fatigue or in kilo-cycles / blocks: small integers
+    unit = draw(st.sampled_from([1.0, 1e-3, 1e-3, 1e-4, 1e-2]))
+    rows = [[r[0], float(max(1, int(round(r[1] * unit)))), r[2]] for r in ds["rows"]]
+    return {"rows": rows, "dtype": draw(st.sampled_from(["int64", "Int64", "int32", "uint32"])),
+            "c": 2.0 ** draw(st.integers(1, 9)), "unit": unit}
+
+
+@subcheck(PROP, "closed_int_cycles", strategy=_int_cycle_cases, quick=300, thorough=12000,
+          doc="Elementary, Probit, MaxLikeInf: integer-typed cycle column (int64, Int64, int32, uint32; small counts) gives the result of "
+              "the same numbers stored as float64 (rtol 1e-9), and cycles x 2^e (still integers) -> ND x 2^e, rest unchanged")
+def closed_int_cycles(case, ctx):
+    rows, dt, c = case["rows"], case["dtype"], case["c"]
+    s = structure(rows)
+    label_structure(ctx, s)
+    small = min(r[1] for r in rows if r[2]) if s["n_fractures"] else 0
+    ctx.label("dtype=" + dt, "min_cycles" + ("<100" if small < 100 else "<1e4" if small < 1e4 else ">=1e4"))
+    rows_c = transformed(rows, "cycles", c=c)
+    names = ["Elementary", "Probit"] + (["MaxLikeInf"] if len(s["mixed"]) >= 2 and len(rows) <= 16 else [])
+    ok_all = True
+    for name in names:
+        fl = analyse(name, rows, want_estimator=True)
+        it = analyse(name, rows, want_estimator=True, cycles_dtype=dt)
+        ic = analyse(name, rows_c, want_estimator=True, cycles_dtype=dt)
+        if fl[0] == "ValueError" or it[0] == "ValueError" or ic[0] == "ValueError":
+            if not (fl[0] == it[0] == ic[0]):
+                raise Violation("%s: float64 cycles -> %s, %s cycles -> %s, %s cycles x %r -> %s" % (
+                    name, fl[1] if fl[0] == "ValueError" else "result", dt, it[1] if it[0] == "ValueError" else "result",
+                    dt, c, ic[1] if ic[0] == "ValueError" else "result"), bucket="int_cycles:guard_differs")
+            ctx.tolerate("%s: ValueError %s" % (name, fl[1][:50]))
+            ok_all = False
+            continue
+        if sorted(fl[2]) != sorted(it[2]):
+            raise Violation("%s: warnings differ between float64 and %s cycles: %r / %r" % (name, dt, fl[2], it[2]), bucket="int_cycles:warnings")
+        # MaxLikeInf's SD/TS do not depend on the cycles at all, its k_1/TN are Elementary's: everything is closed-form in the cycles
+        for p in PARAMS:
+            if not close(it[1][p], fl[1][p], RTOL):
+                raise Violation("%s: %s = %r with the cycles stored as %s, %r with the same numbers as float64" % (name, p, it[1][p], dt, fl[1][p]),
+                                bucket="int_cycles:storage:%s" % p)
+        if fl[3] and it[3]:
+            a_, b_ = fl[3]["normed_cycles"], it[3]["normed_cycles"]
+            if len(a_) != len(b_) or any(not close(x, y, 1e-9 * max(1.0, abs(fl[1]["k_1"]))) for x, y in zip(a_, b_)):
+                raise Violation("%s: pearl chain normed_cycles %r with %s cycles, %r with float64" % (name, b_[:4], dt, a_[:4]),
+                                bucket="int_cycles:storage:normed_cycles")
+        want = _expected(it[1], "cycles", c)
+        skip = set()
+        if s["n_runouts"] == 0 and (math.isinf(it[1]["ND"]) or math.isinf(ic[1]["ND"])):
+            skip.add("ND")          # FC18_a overflow class, see _compare_closed
+        if name == "Probit" and s["n_runouts"] > 0 and (probit_conditioning(rows) or 1.0) < 0.01:
+            skip |= {"TS", "SD", "ND"}
+        if math.isfinite(it[1]["k_1"]) and abs(it[1]["k_1"]) < 0.05:
+            skip.add("TS")
+        if collinear(rows):
+            skip |= {"TN", "TS"}    # zero-variance pearl chain: covered by exact_recovery / closed_cycle_scale
+        for p in PARAMS:
+            if p not in skip and not close(ic[1][p], want[p], RTOL):
+                raise Violation("%s: %s cycles x %r: %s = %r, expected %r (original series: %r)" % (name, dt, c, p, ic[1][p], want[p], it[1][p]),
+                                bucket="int_cycles:scale:%s" % p)
+        ok_all = ok_all and all(math.isfinite(it[1][p]) for p in PARAMS)
+    if ok_all and len(s["levels"]) >= 3 and s["n_runouts"] >= 1:
+        ctx.nontrivial()
+
+
+# =====================================================================================
+# history on ONE FatigueData object: analyse, move the transition, analyse again == fresh object with that transition
+# =====================================================================================
+@st.composite
+def _transition_cases(draw, tier):
+    ds = draw(_datasets(tier, mode=draw(st.sampled_from(["any"] * 3 + ["wild", "mixed2"]))))
+    lv = sorted(set(r[0] for r in ds["rows"]))
+    i = draw(st.integers(0, len(lv) - 1))
+    how = draw(st.sampled_from(["between", "between", "on_level", "below_all", "above_all"]))
+    if how == "between" and i + 1 < len(lv):
+        x = 0.5 * (lv[i] + lv[i + 1])
+    elif how == "below_all":
+        x = 0.5 * lv[0]
+    elif how == "above_all":
+        x = 1.5 * lv[-1]
+    else:
+        x = lv[i]
+    return {"rows": ds["rows"], "x": x, "op": draw(st.sampled_from(["set", "set", "set", "conservative"])),
+            "first": draw(st.sampled_from(["Elementary", "Probit", "zones_only"]))}
+
+
+def _run_on(fd, name):
+    with warnings.catch_warnings(record=True) as wl:
+        warnings.simplefilter("always")
+        try:
+            res = ANALYSERS[name](fd).analyze()
+        except ValueError as e:
+            return "ValueError", str(e), []
+    return "ok", {k_: float(res[k_]) for k_ in PARAMS}, sorted(str(w.message)[:60] for w in wl if issubclass(w.category, UserWarning))
+
+
+def _zone_rows(fd):
+    return (sorted(fd.finite_zone.index.tolist()), sorted(fd.infinite_zone.index.tolist()), float(fd.finite_infinite_transition))
+
+
+@subcheck(PROP, "history_transition", strategy=_transition_cases, quick=300, thorough=12000,
+          doc="one FatigueData object: analyse with the automatic transition, then set_finite_infinite_transition(x) / "
+              "conservative_finite_infinite_transition(), analyse again: identical to a fresh object with the same transition")
+def history_transition(case, ctx):
+    rows, x, op = case["rows"], case["x"], case["op"]
+    s = structure(rows)
+    label_structure(ctx, s)
+    ctx.label("op=" + op, "first=" + case["first"])
+
+    def move(fd):
+        return fd.set_finite_infinite_transition(x) if op == "set" else fd.conservative_finite_infinite_transition()
+    try:
+        used = frame(rows).fatigue_data
+        fresh = frame(rows).fatigue_data
+    except (ValueError, AttributeError) as e:
+        ctx.tolerate("FatigueData: %s" % str(e)[:50])
+        return
+    # first look with the automatic transition
+    z0 = _zone_rows(used)
+    if case["first"] != "zones_only":
+        _run_on(used, case["first"])
+    move(used)
+    move(fresh)
+    zu, zf = _zone_rows(used), _zone_rows(fresh)
+    if zu != zf:
+        raise Violation("zones after %s on a FatigueData object that was used before differ from a fresh object: %r / %r" % (op, zu, zf),
+                        bucket="history_transition:zones")
+    changed = zu[0] != z0[0]
+    ctx.label("finite_zone_changed" if changed else "finite_zone_same")
+    for name in ("Elementary", "Probit"):
+        ru, rf = _run_on(used, name), _run_on(fresh, name)
+        same = ru[0] == rf[0] and ru[2] == rf[2] and (ru[1] == rf[1] if ru[0] == "ValueError" else
+                                                     all(ru[1][k_] == rf[1][k_] or (math.isnan(ru[1][k_]) and math.isnan(rf[1][k_])) for k_ in PARAMS))
+        if not same:
+            raise Violation("%s after %s(%r) on a FatigueData object that was analysed before: %r; fresh object with the same transition: %r" % (
+                name, op, x, ru[1], rf[1]), bucket="history_transition:%s" % name)
+        if ru[0] == "ValueError":
+            ctx.tolerate("%s: ValueError %s" % (name, ru[1][:50]))
+    if changed and len(s["levels"]) >= 3 and s["n_runouts"] >= 1:
+        ctx.nontrivial()
 
 
 # the expensive lanes are scheduled first (the framework starts tasks in registration order)
